@@ -33,23 +33,125 @@ def post_merge(counters, extra):
 
 
 def plan(tier, seed):
-    return [{"name": "s%d" % i, "seed": seed, "shard": i, "draws": 1 if tier == "quick" else 25,
-             "trials": 30 if tier == "quick" else 150, "budget_s": 4.5 if tier == "quick" else 40.0} for i in range(NSHARDS)]
+    return [{"name": "s%d" % i, "seed": seed, "shard": i, "draws": 2 if tier == "quick" else 25,
+             "trials": 30 if tier == "quick" else 150, "budget_s": 3.0 if tier == "quick" else 30.0,
+             "es_s": 6.0 if tier == "quick" else 60.0} for i in range(NSHARDS)]
 
 
 def pep_bound(entry, kwargs):
+    """(value, decided, relative slack): Clarabel with status optimal (slack 1e-4), else SCS with status optimal (5e-3)."""
     from pv import driver
     from pv.monitors import is_optimal_status
+    from pv.ref import examples_table as ET
     bd = driver.boundary()
-    mod = importlib.import_module(entry["module"])
-    fn = getattr(mod, entry["func"])
-    n0 = len(bd.records)
-    with contextlib.redirect_stdout(io.StringIO()), warnings.catch_warnings():
-        warnings.simplefilter("ignore")
-        out = fn(**kwargs, wrapper="cvxpy", solver="CLARABEL", verbose=-1)
-    statuses = [str(x["status"]).lower() for r in bd.records[n0:] for x in r["inner"]]
-    ok = bool(statuses) and all(is_optimal_status(s) for s in statuses)
-    return out[0], ok
+    out = None
+    for solver, slack in (("CLARABEL", 1e-4), ("SCS", 5e-3)):
+        n0 = len(bd.records)
+        with contextlib.redirect_stdout(io.StringIO()), warnings.catch_warnings():
+            warnings.simplefilter("ignore")
+            out = ET.call(entry, kwargs, solver=solver, wrapper="cvxpy", verbose=-1)
+        statuses = [str(x["status"]).lower() for r in bd.records[n0:] for x in r["inner"]]
+        if bool(statuses) and all(is_optimal_status(s) for s in statuses):
+            return out[0], True, slack
+    return out[0], False, None
+
+
+def _adv_from_state(state):
+    """JSON state {thetas: {i: [..]}, dirs: {k: [..]}, units: {k: [..]}, levels: {k: t}} -> adversary dict"""
+    import numpy as np
+    g = lambda name: {int(k): v for k, v in (state.get(name) or {}).items()}
+    adv = {"thetas": g("thetas"), "dirs": {k: np.array(v, dtype=float) for k, v in g("dirs").items()},
+           "units": {k: np.array(v, dtype=float) for k, v in g("units").items()}, "levels": g("levels")}
+    if state.get("common_centre"):
+        adv["common_centre"] = True
+    return adv
+
+
+def es_search(e, kw, dim, seed_tag, deadline, on_run):
+    """(1+1) evolution strategy over the members' parameters (pv/ref/hard.py: inside the class by construction), the
+    starting directions and the choices made inside inexact steps.  on_run(result, state) is called for every real run."""
+    import numpy as np
+    from pv import numeric
+    from pv.ref import hard
+    rng = random.Random("c09es/%s" % seed_tag)
+
+    def unit(d):
+        u = np.array([rng.gauss(0, 1) for _ in range(d)])
+        return (u / max(np.linalg.norm(u), 1e-12)).tolist()
+
+    def run(state):
+        try:
+            with warnings.catch_warnings():
+                warnings.simplefilter("ignore")
+                r = numeric.run_numeric(e["module"], e["func"], kw, "es", "es/%s" % seed_tag, dim, adversary=_adv_from_state(state))
+        except (numeric.Unsupported, numeric.InvalidRun):
+            return None
+        on_run(r, state)
+        return r
+
+    starts = []
+    cs = hard.corners(rng, 24)
+    for common in (False, True):
+        for i, c in enumerate(cs):
+            if time.time() > deadline or (common and i >= 12):
+                break
+            c2 = cs[(i * 5 + 3) % len(cs)]
+            st = {"thetas": {0: list(c), 1: list(c2 if i % 2 else c), 2: list(cs[(i + 1) % len(cs)]), 3: list(c)},
+                  "dirs": {0: unit(dim), 1: unit(dim), 2: unit(dim)}, "units": {}, "levels": {k: 0.0 for k in range(24)},
+                  "common_centre": common}
+            r = run(st)
+            if r is not None:
+                starts.append((r["perf"], i, st, r))
+        if starts:
+            break
+    if not starts:
+        return 0
+    starts.sort(key=lambda t: -t[0])
+    n_acc = 0
+    for rank, (perf, _i, st, r) in enumerate(starts[:3]):
+        sigma = 0.3
+        cur, cur_perf, meta = st, perf, r
+        stall = 0
+        t_end = time.time() + (deadline - time.time()) / (3 - rank)
+        while time.time() < t_end and stall < 120:
+            trial = {k: ({kk: (list(vv) if isinstance(vv, list) else vv) for kk, vv in v.items()} if isinstance(v, dict) else v)
+                     for k, v in cur.items()}
+            groups = ["theta"] * 4 + ["dir"] * 3
+            if meta.get("n_unit"):
+                groups += ["unit"] * 2
+            if meta.get("n_level"):
+                groups += ["level"] * 2
+            g = rng.choice(groups)
+            if g == "theta":
+                i = rng.randrange(max(1, min(4, meta.get("n_decl", 1))))
+                th = trial["thetas"][i]
+                for j in range(len(th)):
+                    if rng.random() < 0.4:
+                        th[j] = min(1.0, max(0.0, th[j] + sigma * rng.gauss(0, 1)))
+                if rng.random() < 0.15:
+                    th[rng.randrange(1, 6)] = rng.choice([0.0, 1.0])
+            elif g == "dir":
+                k = rng.randrange(max(1, min(3, meta.get("n_init", 1))))
+                u = np.array(trial["dirs"][k]) + sigma * np.array([rng.gauss(0, 1) for _ in range(dim)])
+                trial["dirs"][k] = (u / max(np.linalg.norm(u), 1e-12)).tolist()
+            elif g == "unit":
+                k = rng.randrange(min(24, meta["n_unit"]))
+                base = trial["units"].get(k)
+                u = (np.array(base) if base is not None else np.array(unit(dim))) + sigma * np.array([rng.gauss(0, 1) for _ in range(dim)])
+                trial["units"][k] = (u / max(np.linalg.norm(u), 1e-12)).tolist()
+            else:
+                k = rng.randrange(min(24, meta["n_level"]))
+                trial["levels"][k] = min(1.0, max(0.0, trial["levels"].get(k, 0.0) + sigma * rng.gauss(0, 1)))
+            r2 = run(trial)
+            if r2 is not None and r2["perf"] > cur_perf:
+                cur, cur_perf, meta = trial, r2["perf"], r2
+                n_acc += 1
+                stall = 0
+                sigma = min(0.5, sigma * 1.3)
+            else:
+                stall += 1
+                sigma = max(0.01, sigma * 0.93)
+    return n_acc
 
 
 def run_shard(spec):
@@ -63,13 +165,15 @@ def run_shard(spec):
     smooth_needed = set()
     entries = ET.EXAMPLES
     work = []
+    replay_state = None
     if "replay" in spec:
         w = spec["replay"]
         e = [x for x in entries if x["name"] == w["example"]][0]
-        work = [(e, w["kwargs"], [(w["member_seed"], w["dir_seed"], w["dim"])])]
+        work = [(e, w["kwargs"], [(w.get("member_seed", "es"), w.get("dir_seed", "es/%s" % w.get("seed_tag")), w["dim"])])]
+        replay_state = w.get("state")
     else:
         for i, e in enumerate(entries):
-            if i % NSHARDS != spec["shard"]:
+            if (i % NSHARDS != spec["shard"]) if not spec.get("only") else (e["name"] not in spec["only"]):
                 continue
             for k in range(spec["draws"] + 1):
                 rng = random.Random("c09/%d/%s/%d" % (spec["seed"], e["name"], k))
@@ -87,7 +191,7 @@ def run_shard(spec):
             for t in range(spec["trials"]):
                 trials.append(("m%d/%s/%d" % (spec["seed"], name, t // 3), "d%d/%s/%d" % (spec["seed"], name, t), 1 + (t % 4)))
         try:
-            bound, ok = pep_bound(e, kw)
+            bound, ok, slack = pep_bound(e, kw)
         except Exception as ex:
             counters["pep_exceptions:" + type(ex).__name__] = counters.get("pep_exceptions:" + type(ex).__name__, 0) + 1
             continue
@@ -106,6 +210,10 @@ def run_shard(spec):
                 with warnings.catch_warnings():
                     warnings.simplefilter("ignore")
                     adv = {"common_centre": True} if (hash(ds) % 4 == 0 or name in common_centre_needed) else None
+                    if replay_state is not None:
+                        adv = _adv_from_state(replay_state)
+                    elif forced is not None and w.get("direction") is not None:
+                        adv = {"dirs": {0: w["direction"]}}
                     if name in smooth_needed:
                         adv = dict(adv or {}, smooth_only=True)
                     try:
@@ -142,7 +250,7 @@ def run_shard(spec):
                 best[name] = ratio
             if name not in best_run or perf > best_run[name][3]:
                 best_run[name] = (ms, ds, dim, perf)
-            if perf > bound + 1e-4 * abs(bound) + 1e-7:
+            if perf > bound + slack * abs(bound) + 1e-7:
                 if len(viol) < 10 and not any(v["key"] == "real_run_beats_bound:" + name for v in viol):
                     viol.append({"key": "real_run_beats_bound:" + name, "example": name, "kwargs": kw,
                                  "member_seed": ms, "dir_seed": ds, "dim": dim,
@@ -188,11 +296,34 @@ def run_shard(spec):
                     cur, cur_perf = trial, r["perf"]
                     ratio = cur_perf / bound if bound > 1e-9 else (0.0 if cur_perf <= bound + 1e-7 else 1e9)
                     best[name] = max(best.get(name, 0.0), ratio)
-                    if cur_perf > bound + 1e-4 * abs(bound) + 1e-7 and len(viol) < 10:
+                    if cur_perf > bound + slack * abs(bound) + 1e-7 and len(viol) < 10:
                         viol.append({"key": "real_run_beats_bound:" + name, "example": name, "kwargs": kw, "member_seed": ms, "dir_seed": ds,
                                      "dim": dim, "direction": [float(x) for x in cand],
                                      "what": "%s(%s): a real run (hill-climbed start) achieves %.8g, the library returns %.8g"
                                              % (e["func"], kw, cur_perf, bound)})
+        # evolution strategy over member parameters / directions / inexactness choices (time-boxed)
+        if forced is None and spec.get("es_s", 0) > 0:
+            es_before = counters.get("es_runs", 0)
+            def on_run(r, state, _name=name, _bound=bound, _kw=kw, _e=e, _slack=slack):
+                counters["numeric_runs_compared"] += 1
+                counters["es_runs"] = counters.get("es_runs", 0) + 1
+                perf = r["perf"]
+                ratio = perf / _bound if _bound > 1e-9 else (0.0 if perf <= _bound + 1e-7 else 1e9)
+                if ratio > best.get(_name, -1e9):
+                    best[_name] = ratio
+                for mdesc in r["members"]:
+                    families.add("es:" + mdesc.split("(")[0])
+                if perf > _bound + _slack * abs(_bound) + 1e-7 and len(viol) < 10 and \
+                        not any(v["key"] == "real_run_beats_bound:" + _name and "state" in v for v in viol):
+                    viol.append({"key": "real_run_beats_bound:" + _name, "example": _name, "kwargs": _kw, "dim": es_dim,
+                                 "state": state, "seed_tag": es_tag,
+                                 "what": "%s(%s): a real run on %s (searched member parameters) achieves %.8g, the library returns %.8g "
+                                         "(ratio %.4f)" % (_e["func"], _kw, r["members"], perf, _bound, ratio)})
+            for es_dim in ((2, 1) if (spec["shard"] + len(sigs)) % 2 else (2, 3)):
+                es_tag = "%d/%s/%d" % (spec["seed"], name, es_dim)
+                acc = es_search(e, kw, es_dim, es_tag, time.time() + spec["es_s"] / 2.0, on_run)
+                counters["es_improvements"] = counters.get("es_improvements", 0) + acc
+            nrun += counters.get("es_runs", 0) - es_before
         if nrun:
             simulated.add(name)
             sigs.add("%s|%s|%s" % (name, ",".join("%s=%s" % (k, (round(v, 3) if isinstance(v, float) else v)) for k, v in sorted(kw.items()) if not isinstance(v, (list, dict))),
